@@ -60,7 +60,7 @@ def addStartTag(contents, startTag):
         idx = matchObj.end()
     else:
         idx = 0
-    return "%s\n%s\n%s" %(contents[:idx], startTag, contents[idx:])
+    return "%s%s%s" %(contents[:idx], startTag, contents[idx:])
 
 
 def escapeQuotes(value):
